@@ -1834,14 +1834,23 @@ def probe_default_resolved_deferred_list(ctx, only=None):
     return ok
 
 
-def run(ctx):
-    try:
+def stages(ctx):
+    """The stages of the check, each under the wall-clock backstop of C08_world.run_stages (the asyncio paths of this check
+    detect hangs by PROGRESS only: a tree that blocks the calling thread where the harness waits on it without a bound
+    yields `c16:never-completes:stage:<name>` and the check still finishes)."""
+    from corr import C16_cancel
+    cases = corpus_cases() + exhaustive_cases()
+
+    def probes():
         probe_completion_resolver_error(ctx)
         probe_exception_outcome(ctx)
         probe_default_resolved_deferred_list(ctx)
-        cases = corpus_cases() + exhaustive_cases()
+
+    def exhaustive():
         ctx.extra["exhaustive_block_cases"] = len(cases)
         check_cases(ctx, cases)
+
+    def random_cases():
         n = ctx.n(1500, 12000)
         batch = []
         for i in range(n):
@@ -1858,6 +1867,17 @@ def run(ctx):
             c = cases[0]
             ctx.sample({"case": {k: c[k] for k in ("config", "outcome", "serial", "mws", "instr")}, "document": build_document(copy.deepcopy(c))[0],
                         "trace": real_trace(c)[0][:14]})
+
+    return [("probes", probes),
+            ("abort-nested-coroutines", lambda: C16_cancel.probe(ctx)),
+            ("middleware-deferred", lambda: C16_cancel.probe_middleware_exits_before_deferred_resolver(ctx)),
+            ("exhaustive", exhaustive),
+            ("random", random_cases)]
+
+
+def run(ctx, replaying=None):
+    try:
+        W08.run_stages(ctx, "C16", stages(ctx), replaying=replaying)
     finally:
         _cleanup(ctx)
 
@@ -1868,6 +1888,16 @@ def _cleanup(ctx):
 
 
 def replay(ctx, data):
+    if data.get("input", {}).get("probe") == "stage":
+        before = len(ctx.found)
+        run(ctx, replaying=data["input"].get("stage"))
+        return len(ctx.found) == before
+    if data.get("input", {}).get("probe") == "middleware-deferred":
+        from corr import C16_cancel
+        return C16_cancel.probe_middleware_exits_before_deferred_resolver(ctx)
+    if data.get("input", {}).get("probe") == "abort-nested-coroutines":
+        from corr import C16_cancel
+        return C16_cancel.probe(ctx, only=data["input"].get("only"))
     if data.get("input", {}).get("probe") == "completion-resolver-error":
         return probe_completion_resolver_error(ctx)
     if data.get("input", {}).get("probe") == "exception-outcome":
